@@ -378,7 +378,43 @@ func runC10(c *Ctx) {
 		}
 	}
 
+	// the continuation test compares whole tokens: a raw character-prefix test would take
+	// "... 0 10" for a continuation of "... 0 1" and feed the leftover "0" to Engine.Move
+	r.Rule("R10-prefix", "the test 'this command continues the remembered one' is made at a token boundary: the remembered line is compared as a prefix only together with the separator that must follow it (or for equality)", 1)
+	c.guard("R10-prefix", func() {
+		n, bad := 0, ""
+		for _, b := range d.process.Blocks {
+			if !inArm(b) {
+				continue
+			}
+			for _, ins := range b.Instrs {
+				call, ok := ins.(*ssa.Call)
+				if !ok || call.Call.StaticCallee() == nil || call.Call.StaticCallee().String() != "strings.HasPrefix" || len(call.Call.Args) != 2 {
+					continue
+				}
+				pfx := call.Call.Args[1]
+				if !strings.Contains(pathExpr(pfx), ".lastPosition") {
+					continue
+				}
+				n++
+				okSep := false
+				if bo, isBin := pfx.(*ssa.BinOp); isBin && bo.Op == token.ADD {
+					if cst, isC := bo.Y.(*ssa.Const); isC && cst.Value != nil && cst.Value.Kind() == constant.String && strings.HasPrefix(constant.StringVal(cst.Value), " ") && strings.HasSuffix(pathExpr(bo.X), ".lastPosition") {
+						okSep = true
+					}
+				}
+				if !okSep {
+					bad = joinNonEmpty(bad, "strings.HasPrefix(line, "+pathExpr(pfx)+") at "+c.pos(call.Pos())+" is a raw character-prefix test: 'position fen <f> 0 1' followed by 'position fen <f> 0 10' is taken for a continuation, the leftover '0' is played as a move, fails, and the driver stops with the engine still on the first position")
+				}
+			}
+		}
+		r.Check(bad == "" && n >= 1, "R10-prefix", "continuation test at a token boundary", c.pos(pos.Instrs[0].Pos()), "", bad)
+	})
 	c10Engine(c)
+	// the moves of the command are played as written: Engine.Move pushes the generated move that
+	// Equals the parsed text in origin, destination and promotion (rule of C19, re-decided here)
+	r.Rule("R10-move", "Engine.Move plays exactly the move the text names: the pushed move is a generated move Equal to the parsed text (origin, destination, promotion piece), and success is reported iff it was pushed", 5)
+	c.guard("R10-move", func() { r.WithAlias("R19-move", "R10-move", func() { c19Move(c) }) })
 }
 
 // mustStoredBefore: the keys for which a store has happened on EVERY path from the function's
